@@ -305,15 +305,37 @@ def c_array_try_from(eng, st, fr, f, args, site):
     """`<[u8; N]>::try_from(slice)`: Ok(the N elements) exactly when the slice has N elements."""
     vw = view(eng, st, args[0])
     rt = ret_ty(eng, site)
-    if vw is None or rt is None:
+    if vw is None:
         return None
-    at = variant_payload_ty(eng, rt, 0)
-    if at is None:
+    at = variant_payload_ty(eng, rt, 0) if rt is not None else None
+    if (at is None or eng.T.t(at)["k"] not in ("array", "ref")) and f.get("self_ty") is not None:
+        # applied as a function value by a higher-order contract (`opt.map(<[u8; N]>::try_from)`): the site's type is the
+        # combinator's, the result type is rebuilt from the impl's Self type
+        et_ = eng.T.by_string("std::array::TryFromSliceError") or eng.T.by_string("core::array::TryFromSliceError")
+        at = eng.T.subst(f["self_ty"], getattr(fr, "sub", None) or {})
+        rt = eng.T.mk_adt("std::result::Result", [at, et_]) if et_ is not None else None
+    if at is None or rt is None:
         return None
     t = eng.T.t(at)
     by_ref = t["k"] == "ref"
     if by_ref:
         t = eng.T.t(t["to"])
+    if t["k"] == "array" and t.get("len") is None and t.get("lenp") and re.match(r"^[A-Z_][A-Z0-9_]*$", str(t["lenp"])):
+        # length is a const parameter of a function analysed stand-alone: the elements are not enumerated, but the
+        # conversion still succeeds exactly when the slice has that many elements
+        nl = Lin.sym("const:%s" % t["lenp"])
+        outs = []
+        ns = st.fork()
+        try:
+            ns.add_fact(vw["len"].sub(nl), eng)
+            ns.add_fact(nl.sub(vw["len"]), eng)
+            outs.append((ns, Enum(rt, ((0, (Top(at, "arr#%d" % eng._hv()),)),), "res")))
+        except Dead:
+            pass
+        if not (st.holds(vw["len"].sub(nl), eng) and st.holds(nl.sub(vw["len"]), eng)):
+            et = variant_payload_ty(eng, rt, 1)
+            outs.append((st.fork(), Enum(rt, ((1, (Top(et, "tryfrom_err#%d" % eng._hv()),)),), "res")))
+        return outs
     if t["k"] != "array" or not isinstance(t.get("len"), int) or t["len"] > 32 or vw["elem"] is not None:
         return None
     n = t["len"]
